@@ -89,6 +89,8 @@ def run(tier):
                 traces.append({"sig": t["sig"], "events": t["events"]})
                 labels.append("%s: %s" % (name, t["label"]))
         if not traces:
+            if c.viol:
+                c.finish()      # nothing could be run because of what was already reported (build failures)
             raise MachineryError("no call traces recorded")
         controls = []
         for t in traces:
